@@ -21,7 +21,7 @@ BOUNDS = {
 }
 ASSUMPTIONS = [
     "floats are modelled as exact reals; int/int true division is exact",
-    "shift amounts above 16 are excluded by assumption (recorded per path)",
+    "shift amounts above 12 are excluded by assumption (recorded per path)",
     "user callables/arrays/records in the environment are uninterpreted functions of their arguments",
     "z3 4.x/5.x decides the queries; unknown is reported as inconclusive",
 ]
